@@ -76,6 +76,12 @@ class PromptPdu(AbstractFileDirectiveBase):
         prompt_pdu = cls.__empty()
         prompt_pdu.pdu_file_directive = FileDirectivePduBase.unpack(raw_packet=data)
         prompt_pdu.pdu_file_directive.verify_length_and_checksum(data)
+        # Only the octets of this PDU in front of its CRC trailer (if there is one) hold
+        # directive parameters. Nothing behind that belongs to the PDU.
+        end_of_params = prompt_pdu.pdu_file_directive.packet_len
+        if prompt_pdu.pdu_file_directive.pdu_conf.crc_flag == CrcFlag.WITH_CRC:
+            end_of_params -= 2
+        data = data[:end_of_params]
         current_idx = prompt_pdu.pdu_file_directive.header_len
         if current_idx >= len(data):
             raise BytesTooShortError(current_idx, len(data))
